@@ -167,7 +167,7 @@ def m_int_cmp(op):
             return I.binop(op, x, y)
         if isinstance(x, SBool):
             return I.binop(op, x, y)
-        if isinstance(x, SEnum) and not x.pay and not y.pay:
+        if isinstance(x, SEnum) and isinstance(y, SEnum) and not any(x.pay.values()) and not any(y.pay.values()):
             dx, dy = disc_term(x), disc_term(y)
             return I.binop(op, SInt(dx, 64, True), SInt(dy, 64, True))
         if isinstance(x, SStr) and isinstance(y, SStr) and op in ("Eq", "Ne"):
